@@ -87,6 +87,15 @@ def generate():
         ("muteForcesZero", 1 if re.search(r"p->channel_mute\[root\]\)\s*\{\s*vol\s*=\s*0\s*;", virt) else None,
          "1 when libxmp_virt_setvol has the shape `if (root < XMP_MAX_CHANNELS && p->channel_mute[root]) { vol = 0; }`"),
     ]
+    # which voices does the master volume reach?  (finding F6)
+    cond = re.search(r"if\s*\(([^{;]*?)\)\s*\{\s*finalvol\s*=\s*finalvol\s*\*\s*p->master_vol", player)
+    ctext = re.sub(r"\s+", "", cond.group(1)) if cond else ""
+    if ctext == "chn<m->mod.chn":
+        nna_rule, nna_doc = "false", "the test is `chn < m->mod.chn`: background (NNA) voices get smix_vol"
+    elif ctext == "chn<m->mod.chn||(chn>=p->virt.num_tracks&&libxmp_virt_getroot(ctx,chn)<m->mod.chn)":
+        nna_rule, nna_doc = "true", "background voices whose root is a module channel get master_vol"
+    else:
+        nna_rule, nna_doc = "false", "UNRECOGNISED shape %r — assumed old rule; the twin correspondence decides" % ctext[:120]
     L = ["/-! GENERATED by tools/gen_mixlinear.py from src/mixer.c, src/mixer.h, src/common.h, include/xmp.h,",
          "src/player.c, src/virtual.c of the libxmp working tree — do not edit. -/",
          "namespace Xmp.Gen.MixLinearConsts", ""]
@@ -98,6 +107,8 @@ def generate():
     for name, v, doc in shapes:
         L.append("/-- %s (recognised from the code shape; `none` = not recognised) -/" % doc)
         L.append("def %s : Option Nat := %s" % (name, "none" if v is None else "some %d" % v))
+    L.append("/-- master-volume rule of process_volume: %s -/" % nna_doc)
+    L.append("def nnaRootRule : Bool := %s" % nna_rule)
     L += ["", "end Xmp.Gen.MixLinearConsts", ""]
     return vlib.write_if_changed(OUTFILE, "\n".join(L))
 
